@@ -814,3 +814,174 @@ Proof.
   unfold std_decode. cbv zeta. unfold encode. rewrite (strip_wrap _ _ _ Hnl).
   apply Hcore. apply Nat.lt_succ_diag_r.
 Qed.
+
+(* ------------------------------------------------------------------ *)
+(* Removal of CR/LF commutes with the whole function                   *)
+(* ------------------------------------------------------------------ *)
+Lemma nl_cls0 : forall c, is_nl c = true -> spec_cls c = 0.
+Proof.
+  intros c H. unfold is_nl in H. apply orb_prop in H.
+  destruct H as [H | H]; apply N.eqb_eq in H; subst c; reflexivity.
+Qed.
+
+Lemma scan_strip : forall s b dl,
+  which_scan spec_cls (strip_nl s) b dl = which_scan spec_cls s b dl.
+Proof.
+  induction s as [|c r IH]; intros b dl; [reflexivity|].
+  unfold strip_nl. cbn [filter]. fold (strip_nl r).
+  destruct (is_nl c) eqn:E; cbn [negb].
+  - cbn [which_scan]. rewrite (nl_cls0 c E). cbv zeta.
+    change (0 =? cX) with false. change (0 =? 0) with true. cbv iota.
+    rewrite N.lor_0_r. apply IH.
+  - cbn [which_scan]. cbv zeta. destruct (spec_cls c =? cX); [reflexivity|]. apply IH.
+Qed.
+
+Lemma which_strip : forall s, which_base64 (strip_nl s) = which_base64 s.
+Proof.
+  intros s. rewrite !which_cls_spec. unfold which_with. rewrite scan_strip. reflexivity.
+Qed.
+
+Lemma strip_idem : forall s, strip_nl (strip_nl s) = strip_nl s.
+Proof.
+  intros s. apply strip_id. unfold no_nl, strip_nl.
+  apply forallb_forall. intros c Hc. apply filter_In in Hc. apply Hc.
+Qed.
+
+Lemma std_decode_strip : forall e s, std_decode e (strip_nl s) = std_decode e s.
+Proof. intros e s. unfold std_decode. rewrite strip_idem. reflexivity. Qed.
+
+Theorem decode_any_strip : forall s, decode_any (strip_nl s) = decode_any s.
+Proof.
+  intros s. unfold decode_any, decode_any_gen. rewrite which_strip.
+  destruct (which_base64 s) as [e|]; [|reflexivity].
+  rewrite std_decode_strip. reflexivity.
+Qed.
+
+Lemma accepts_strip_iff : forall s bs, decode_any s = Ok bs <-> decode_any (strip_nl s) = Ok bs.
+Proof. intros s bs. rewrite decode_any_strip. tauto. Qed.
+
+(* ------------------------------------------------------------------ *)
+(* Round trip with line breaks inserted at ANY positions               *)
+(* ------------------------------------------------------------------ *)
+(* [wrap_of s t]: t is s with CR / LF characters inserted at arbitrary positions *)
+Inductive wrap_of : bytes -> bytes -> Prop :=
+| wrap_nil : wrap_of [] []
+| wrap_keep : forall c s t, wrap_of s t -> wrap_of (c :: s) (c :: t)
+| wrap_ins : forall c s t, is_nl c = true -> wrap_of s t -> wrap_of s (c :: t).
+
+Lemma wrap_of_strip : forall s t, wrap_of s t -> no_nl s = true -> strip_nl t = s.
+Proof.
+  intros s t W. induction W as [|c s t W IH|c s t Hc W IH]; intros H.
+  - reflexivity.
+  - cbn [no_nl forallb] in H. apply andb_prop in H. destruct H as [Hc Hs].
+    unfold strip_nl. cbn [filter]. rewrite Hc. fold (strip_nl t). f_equal. apply IH. exact Hs.
+  - unfold strip_nl. cbn [filter]. rewrite Hc. cbn [negb]. fold (strip_nl t). apply IH. exact H.
+Qed.
+
+(* conversely every text whose CR/LF-free content is s is such a wrap *)
+Lemma strip_wrap_of : forall t, wrap_of (strip_nl t) t.
+Proof.
+  induction t as [|c r IH]; [constructor|].
+  unfold strip_nl. cbn [filter]. fold (strip_nl r).
+  destruct (is_nl c) eqn:E; cbn [negb]; [apply wrap_ins; assumption | apply wrap_keep; assumption].
+Qed.
+
+Lemma wrap_fixed_is_wrap_of : forall w crlf s, no_nl s = true -> wrap_of s (wrap w crlf s).
+Proof.
+  intros w crlf s H. rewrite <- (strip_wrap w crlf s H) at 1. apply strip_wrap_of.
+Qed.
+
+Lemma encode_no_nl : forall e bs, bytes_ok bs = true -> no_nl (encode e bs) = true.
+Proof.
+  intros e bs H.
+  destruct (encode_core_props (enc_url e) (enc_padded e) (S (length bs)) bs (Nat.lt_succ_diag_r _) H)
+    as [Hnl _]. exact Hnl.
+Qed.
+
+Theorem roundtrip_any_wrap : forall e bs t, bytes_ok bs = true ->
+  wrap_of (encode e bs) t -> decode_any t = Ok bs.
+Proof.
+  intros e bs t H W. rewrite <- decode_any_strip.
+  rewrite (wrap_of_strip _ _ W (encode_no_nl e bs H)).
+  exact (roundtrip e 0 false bs H).
+Qed.
+
+Example wrap_of_example :
+  wrap_of (encode Std [65; 66; 67; 68; 69; 70]) [81; 85; 74; 68; 13; 10; 82; 69; 86; 71; 10].
+Proof. vm_compute. repeat (first [apply wrap_nil | apply wrap_keep | apply wrap_ins; [reflexivity|]]). Qed.
+
+(* ------------------------------------------------------------------ *)
+(* Buffers: what is read back from a window is what was written        *)
+(* ------------------------------------------------------------------ *)
+Lemma take_app_len : forall A (x y : list A), take (length x) (x ++ y) = x.
+Proof. intros A x y. induction x as [|a x IH]; cbn; [destruct y; reflexivity | f_equal; exact IH]. Qed.
+
+Lemma drop_app_len : forall A (x y : list A), drop (length x) (x ++ y) = y.
+Proof. intros A x y. induction x as [|a x IH]; cbn; [reflexivity | exact IH]. Qed.
+
+Lemma take_length : forall A n (l : list A), (n <= length l)%nat -> length (take n l) = n.
+Proof.
+  intros A. induction n as [|n IH]; intros [|x l] H; cbn in *; try reflexivity; try lia.
+  f_equal. apply IH. lia.
+Qed.
+
+Lemma drop_length : forall A n (l : list A), length (drop n l) = (length l - n)%nat.
+Proof. intros A. induction n as [|n IH]; intros [|x l]; cbn; try reflexivity; try lia. apply IH. Qed.
+
+(* the callee sees exactly the text, whatever lies before and behind it in the array *)
+Lemma window_app : forall pre t post, window (length pre) (length t) (pre ++ t ++ post) = t.
+Proof. intros. unfold window. rewrite drop_app_len. apply take_app_len. Qed.
+
+Lemma overwrite_length : forall off t b, (off + length t <= length b)%nat ->
+  length (overwrite off t b) = length b.
+Proof.
+  intros off t b H. unfold overwrite. rewrite !app_length, take_length, drop_length by lia. lia.
+Qed.
+
+Lemma window_overwrite : forall off t b, (off <= length b)%nat ->
+  window off (length t) (overwrite off t b) = t.
+Proof.
+  intros off t b H. unfold overwrite.
+  rewrite <- (take_length _ off b H) at 1. apply window_app.
+Qed.
+
+(* writing a text elsewhere does not change the bytes outside its window *)
+Lemma overwrite_outside : forall off t b, (off + length t <= length b)%nat ->
+  take off (overwrite off t b) = take off b /\
+  drop (off + length t) (overwrite off t b) = drop (off + length t) b.
+Proof.
+  intros off t b H. unfold overwrite. split.
+  - rewrite <- (take_length _ off b) at 1 by lia. apply take_app_len.
+  - rewrite app_assoc.
+    replace (off + length t)%nat with (length (take off b ++ t)) at 1
+      by (rewrite app_length, take_length by lia; reflexivity).
+    apply drop_app_len.
+Qed.
+
+Theorem reuse_reads_what_was_written : forall steps b, steps_fit (length b) steps = true ->
+  map fst (reuse_windows b steps) = map snd steps.
+Proof.
+  induction steps as [|[off t] r IH]; intros b H; [reflexivity|].
+  cbn [steps_fit forallb fst snd] in H. apply andb_prop in H. destruct H as [H1 H2].
+  apply Nat.leb_le in H1. cbn [reuse_windows map fst snd]. f_equal.
+  - apply window_overwrite. lia.
+  - apply IH. rewrite overwrite_length by exact H1. exact H2.
+Qed.
+
+Lemma pure_window : forall pre t post,
+  decode_any (window (length pre) (length t) (pre ++ t ++ post)) = decode_any t.
+Proof. intros. rewrite window_app. reflexivity. Qed.
+
+Lemma pure_reuse : forall steps b, steps_fit (length b) steps = true ->
+  map (fun wb => decode_any (fst wb)) (reuse_windows b steps) = map (fun s => decode_any (snd s)) steps.
+Proof.
+  intros steps b H. rewrite <- (map_map fst decode_any), <- (map_map snd decode_any).
+  f_equal. exact (reuse_reads_what_was_written steps b H).
+Qed.
+
+Lemma wrap_of_is_strip : forall s t, no_nl s = true -> (wrap_of s t <-> strip_nl t = s).
+Proof.
+  intros s t H. split.
+  - intros W. exact (wrap_of_strip s t W H).
+  - intros E. rewrite <- E. apply strip_wrap_of.
+Qed.
